@@ -1,0 +1,21 @@
+//go:build verif
+
+package context
+
+// Contracts for the verification machinery in /verif (comment-only file; compiled
+// only with -tags verif and adds no code).
+
+//@ # ---- C22: the visibility in effect at a definition ----
+//@ # A visibility section is private or protected, never both: the hint tag built in
+//@ # main.setDefineInfos (and Def.Evaluation's methodT flags) read the two flags independently.
+//@ spec visExcl(c) = !(c.IsPrivate && c.IsProtected)
+//@ func (*ti/context.Context).StartPrivate
+//@   ensures[C22] c.IsPrivate && !c.IsProtected
+//@ func (*ti/context.Context).StartProtected
+//@   ensures[C22] c.IsProtected && !c.IsPrivate
+//@ func (*ti/context.Context).EndPrivate
+//@   ensures[C22] !c.IsPrivate && c.IsProtected == old(c.IsProtected)
+//@ func (*ti/context.Context).EndProtected
+//@   ensures[C22] !c.IsProtected && c.IsPrivate == old(c.IsPrivate)
+//@ writers[C22] context.Context.IsPrivate (*ti/context.Context).StartPrivate,(*ti/context.Context).StartProtected,(*ti/context.Context).EndPrivate
+//@ writers[C22] context.Context.IsProtected (*ti/context.Context).StartPrivate,(*ti/context.Context).StartProtected,(*ti/context.Context).EndProtected
